@@ -52,7 +52,7 @@ var c16Leaves = []c16Leaf{
 	{"interface{}", []interface{}{nil, 5, "s", true, 1.5, []interface{}{1, "x"}, map[string]interface{}{"k": 1}}},
 	{"[]int", []interface{}{[]int(nil), []int{}, []int{1, -2}}},
 	{"[]string", []interface{}{[]string(nil), []string{}, []string{"", "b"}}},
-	{"map[string]int", []interface{}{map[string]int(nil), map[string]int{}, map[string]int{"b": 2, "a": 1, "$5": 3, "": 4}}},
+	{"map[string]int", []interface{}{map[string]int(nil), map[string]int{}, map[string]int{"b": 2, "a": 1, "$5": 3, "": 4}, map[string]int{"etag": 1, "ETag": 2, "ETAG": 3, "eTag": 4, "b": 5, "B": 6}}},
 	{"*int", []interface{}{(*int)(nil), ptrInt(0), ptrInt(-9)}},
 	{"**int", []interface{}{(**int)(nil), ptrPtrInt(3)}},
 	{"*string", []interface{}{(*string)(nil), ptrStr("")}},
@@ -637,7 +637,12 @@ func c16Body(c *mc.Ctx) {
 		case 0:
 			out, err = ion.MarshalText(val.Interface())
 			if err == nil {
+				// several more calls: map iteration order is randomised per call, and an ordering
+				// that depends on it has to show up here with near certainty
 				out2, _ = ion.MarshalText(val.Interface())
+				for i := 0; i < 12 && bytes.Equal(out, out2); i++ {
+					out2, _ = ion.MarshalText(val.Interface())
+				}
 			}
 		case 1:
 			out, err = ion.MarshalBinary(val.Interface())
@@ -756,7 +761,7 @@ func init() {
 		ID:    "C16",
 		Title: "Marshal then Unmarshal returns an equal Go value, in text and in binary",
 		Rule: "every leaf type of a 39-entry table (bool, all integer widths at their extremes, floats incl. -0/NaN/inf/float32 limits, strings incl. '$5', []byte nil/empty/non-empty, [3]byte, Timestamp at 5 precisions, Decimal and *Decimal incl. negative zero, time.Time with zones and nanoseconds, big.Int and *big.Int, interface{} fixpoints, slices/maps nil vs empty, pointers and pointer-to-pointer, structs with every ion tag option, embedded structs by value/pointer/three levels deep, the annotations wrapper around a scalar, a list, a struct and a map, case-colliding field names, nested collections) x every boundary value x 8 wrappers (bare, pointer, slice, array, map, struct field, omitempty struct field, interface{}) x {MarshalText, MarshalBinary, MarshalBinaryLST, Encoder+Decoder}. " +
-			"Oracle: (i) the independent decoder reads the bytes and they equal the documented Ion image of the Go value (computed by an independent walk over the value and its tags); (ii) Unmarshal into a fresh value of the same type is equal (NaN, timestamps, decimals, times, big ints compared by value; nil vs empty collections distinguished); (iii) MarshalText twice gives identical bytes with sorted map keys. " +
+			"Oracle: (i) the independent decoder reads the bytes and they equal the documented Ion image of the Go value (computed by an independent walk over the value and its tags); (ii) Unmarshal into a fresh value of the same type is equal (NaN, timestamps, decimals, times, big ints compared by value; nil vs empty collections distinguished); (iii) MarshalText called up to 13 times gives identical bytes (maps incl. keys that differ only in case). " +
 			"non-trivial = bytes decoded, image compared and round trip compared; distinct = distinct (type, wrapper, output bytes) digests",
 		Bounds:      map[string]string{"quick": "wrapper depth 1", "thorough": "same table (complete)"},
 		Assumptions: []string{"interface{} values are restricted to fixpoints of the documented mapping (int, float64, string, bool, []interface{}, map[string]interface{}, nil)"},
